@@ -168,7 +168,7 @@ def expand(acc, item, tier, seed):
             if interesting and len(lst) >= 2:
                 acc.ntc()
             acc.outcome("len=%d" % len(lst))
-            if final != state:
+            if final != state and TS.representable(final):
                 acc.succ.add((cfgkey, final))
                 acc.outcome("changed")
             for k, m in bad:
